@@ -49,7 +49,7 @@ from concurrent.futures import ThreadPoolExecutor
 from .. import core, tool
 
 TARGETS = ["c", "cpp", "py", "html"]
-AXES = ["clock", "hashseed", "input-location", "output-location", "cwd", "spelling", "in-process"]
+AXES = ["clock", "hashseed", "input-location", "output-location", "cwd", "spelling", "in-process", "ambient"]
 # absolute locations of different depth and length (below the per-pair scratch directory)
 LOCS = ["a", "deeper/and/longer/path_b", "m.n-o/q"]
 CWD_KINDS = ["in", "out", "neutral", "neutral2", "root"]
@@ -86,6 +86,10 @@ def _strategies():
         if maybe(45):
             # (--omit-serialization-support with --generate-support always is refused by the CLI as a logic error)
             o["support"] = draw(st.sampled_from((["never", "as-needed", "only"] if o.get("omit") else ["always", "never", "as-needed", "only"])))
+        if maybe(12):
+            o["trim_blocks"] = True
+        if maybe(12):
+            o["lstrip_blocks"] = True
         if maybe(25):
             o["pp_trim"] = True
         if maybe(30):
@@ -124,6 +128,9 @@ def _strategies():
             # what the interpreter of a "second" run did before: another target on the same definitions, or the same target on
             # an EARLIER REVISION of the namespace (same type names and versions, other bodies) kept at another location
             "warm": draw(st.sampled_from(TARGETS + ["revision", "revision"])),
+            # what the machine holds besides inputs and outputs: every fresh-process run gets PRIVATE, empty TMPDIR / HOME /
+            # XDG_CACHE_HOME directories; "used" = another invocation (same definitions, OTHER options) ran there first
+            "amb": draw(st.sampled_from(["clean", "clean", "used"])),
         }
 
     @st.composite
@@ -151,6 +158,10 @@ def _strategies():
                     b["spell"][k] = draw(st.sampled_from([s for s in SPELLS if s != a["spell"][k]]))
             elif ax == "in-process":
                 b["proc"] = "fresh" if a["proc"] == "second" else "second"
+            elif ax == "ambient":
+                b["amb"] = "used" if a.get("amb", "clean") == "clean" else "clean"
+                if forced == "ambient":
+                    b["proc"] = a["proc"] = "fresh"  # leftovers of an earlier PROCESS are the subject
         return b
 
     def nested_roots(u: dict) -> typing.List[int]:
@@ -211,6 +222,8 @@ def axes_of(a: dict, b: dict) -> typing.List[str]:
         out.append("spelling")
     if a["proc"] != b["proc"]:
         out.append("in-process")
+    if a.get("amb", "clean") != b.get("amb", "clean"):
+        out.append("ambient")
     return out
 
 
@@ -218,8 +231,8 @@ def with_axis(a: dict, b: dict, axis: str) -> dict:
     """Environment A with exactly one axis taken from B."""
     e = copy.deepcopy(a)
     key = {"clock": "t", "hashseed": "hs", "input-location": "inloc", "output-location": "outloc", "cwd": "cwd",
-           "spelling": "spell", "in-process": "proc"}[axis]
-    e[key] = copy.deepcopy(b[key])
+           "spelling": "spell", "in-process": "proc", "ambient": "amb"}[axis]
+    e[key] = copy.deepcopy(b.get(key, "clean") if key == "amb" else b[key])
     if axis == "in-process":
         e["warm"] = b["warm"]
     return e
@@ -248,18 +261,36 @@ def has_nested_namespace(u: dict, root: int) -> bool:
 
 
 def add_siblings(u: dict, root: int) -> dict:
-    """Copies the first nested type of the generated root into two fresh sibling namespaces (same body: every reference
-    it makes is to an earlier type, so dependency order and front-end validity are preserved; no fixed port-ID)."""
+    """
+    Puts types of DIFFERENT shape into fresh sibling namespaces next to the first nested type of the generated root: a verbatim
+    copy (every reference it makes is to an earlier type, so dependency order and front-end validity are preserved; no fixed
+    port-ID), a wrapper that nests that copy (single, fixed array, variable array -- the code generator needs many of its
+    per-file unique names for it) and a minimal one-field type.  Which of them the set-ordered walk over the sibling namespaces
+    meets first must not show in any file.
+    """
     u = copy.deepcopy(u)
     types = u["roots"][root]["types"]
     i = next(k for k, td in enumerate(types) if len(td["ns"]) >= 2)
     used = {c for td in types for c in td["ns"]}
-    fresh = [n for n in ("zeta", "omega", "kappa", "sigma") if n not in used][:2]
-    for n, comp in enumerate(fresh):
-        cp = copy.deepcopy(types[i])
-        cp["ns"] = cp["ns"][:-1] + [comp]
-        cp["port_id"] = None
-        types.insert(i + 1 + n, cp)
+    fresh = [n for n in ("zeta", "omega", "kappa", "sigma", "theta") if n not in used][:3]
+    cp = copy.deepcopy(types[i])
+    cp["ns"] = cp["ns"][:-1] + [fresh[0]]
+    cp["port_id"] = None
+    types.insert(i + 1, cp)
+    if cp["kind"] != "service":
+        ref = {"t": "ref", "full": ".".join(cp["ns"] + [cp["name"]]), "major": cp["major"], "minor": cp["minor"]}
+
+        def fld(name, t):
+            return {"k": "field", "type": t, "name": name, "doc": None}
+
+        wrapper = {"ns": cp["ns"][:-1] + [fresh[1]], "name": "Wrap", "major": 1, "minor": 0, "port_id": None, "kind": "struct", "deprecated": bool(cp.get("deprecated")), "doc": [],
+                   "body": {"union": False, "sealed": False, "extent_extra": 1, "extent_bits": 8 * 4096,
+                            "attrs": [fld("one", ref), fld("two", {"t": "farr", "elem": ref, "n": 2}), fld("many", {"t": "varr", "elem": ref, "cap": 2, "incl": True}),
+                                      fld("bytes_", {"t": "varr", "elem": {"t": "uint", "bits": 8, "cast": "saturated"}, "cap": 5, "incl": True})]}}
+        types.insert(i + 2, wrapper)
+    plain = {"ns": cp["ns"][:-1] + [fresh[2]], "name": "Plain", "major": 1, "minor": 0, "port_id": None, "kind": "struct", "deprecated": False, "doc": [],
+             "body": {"union": False, "sealed": True, "extent_extra": 0, "attrs": [{"k": "field", "type": {"t": "uint", "bits": 8, "cast": "saturated"}, "name": "x", "doc": None}]}}
+    types.insert(i + 2, plain)
     return u
 
 
@@ -327,6 +358,10 @@ def build_argv(u: dict, root: int, target: str, opts: dict, e: dict, lay: Layout
         argv += ["--omit-serialization-support"]
     if opts.get("support"):
         argv += ["--generate-support", opts["support"]]
+    if opts.get("trim_blocks"):
+        argv += ["--trim-blocks"]
+    if opts.get("lstrip_blocks"):
+        argv += ["--lstrip-blocks"]
     if opts.get("pp_trim"):
         argv += ["--pp-trim-trailing-whitespace"]
     if opts.get("pp_maxlines") is not None:
@@ -439,15 +474,21 @@ def snapshot_tree(dst: pathlib.Path) -> str:
     raise core.HarnessError(f"cannot take a consistent snapshot of {core.REPO}/src (it keeps changing)")
 
 
-def run_fresh(argv: typing.List[str], cwd: str, hashseed: str, fake_time: float) -> typing.Tuple[int, str, str]:
+def run_fresh(argv: typing.List[str], cwd: str, hashseed: str, fake_time: float, ambient: typing.Optional[pathlib.Path] = None) -> typing.Tuple[int, str, str]:
     """Same as tool.run_sub (fresh interpreter through nnvg_wrap.py with the fake clock) but importing nunavut from src_dir()."""
-    if SRC is None:
+    if SRC is None and ambient is None:
         return tool.run_sub(argv, cwd=cwd, hashseed=hashseed, fake_time=fake_time)
     e = dict(os.environ)
+    if ambient is not None:
+        for var, sub in (("TMPDIR", "tmp"), ("HOME", "home"), ("XDG_CACHE_HOME", "home/.cache")):
+            (ambient / sub).mkdir(parents=True, exist_ok=True)
+            e[var] = str(ambient / sub)
+        for var in ("TEMP", "TMP"):
+            e.pop(var, None)
     e.pop("DSDL_INCLUDE_PATH", None)
     e["PYTHONHASHSEED"] = str(hashseed)
     e["PYTHONDONTWRITEBYTECODE"] = "1"
-    e["PYTHONPATH"] = str(src_dir())
+    e["PYTHONPATH"] = str(src_dir()) if SRC is not None else str(core.REPO / "src")
     cmd = [tool.PY, tool.WRAP, "--fake-time", repr(float(fake_time)), "--"] + [str(a) for a in argv]
     p = subprocess.run(cmd, cwd=cwd, env=e, capture_output=True, text=True, timeout=600)
     return p.returncode, p.stdout, p.stderr
@@ -466,8 +507,26 @@ def run_once(u: dict, root: int, target: str, opts: dict, e: dict, lay: Layout) 
     cwd.mkdir(parents=True, exist_ok=True)
     argv = build_argv(u, root, target, opts, e, lay)
     if e["proc"] == "fresh":
-        rc, so, se = run_fresh(argv, cwd=str(cwd), hashseed=str(e["hs"]), fake_time=e["t"])
-        how = f"fresh process: PYTHONHASHSEED={e['hs']} fake-clock={e['t']!r} cwd={cwd} nnvg " + " ".join(argv)
+        with _RUNS_LOCK:
+            RUNS["_amb_seq"] = RUNS.get("_amb_seq", 0) + 1
+            amb = lay.base / "amb" / str(RUNS["_amb_seq"])
+        pre = ""
+        if e.get("amb", "clean") == "used":
+            # an earlier invocation on this machine: same definitions and target, OTHER options, its own output directory
+            other = dict(opts)
+            for k_ in ("trim_blocks", "lstrip_blocks", "pp_trim", "asserts"):
+                other[k_] = not opts.get(k_)
+            other["endian"] = "big" if opts.get("endian") != "big" else "little"
+            pre_argv = build_argv(u, root, target, other, e, lay, outdir=amb / "earlier_out")
+            prc, _, pse = run_fresh(pre_argv, cwd=str(cwd), hashseed=str(e["hs"]), fake_time=e["t"] - 3600.0, ambient=amb)
+            with _RUNS_LOCK:
+                k_ = "ambient_earlier_invocation" + ("" if prc == 0 else "_failed")
+                RUNS[k_] = RUNS.get(k_, 0) + 1
+            shutil.rmtree(amb / "earlier_out", ignore_errors=True)
+            pre = f"[after, in the same TMPDIR/HOME: nnvg {' '.join(pre_argv)}] "
+        rc, so, se = run_fresh(argv, cwd=str(cwd), hashseed=str(e["hs"]), fake_time=e["t"], ambient=amb)
+        shutil.rmtree(amb, ignore_errors=True)
+        how = pre + f"fresh process (private empty TMPDIR/HOME{'' if not pre else ' shared with the earlier invocation'}): PYTHONHASHSEED={e['hs']} fake-clock={e['t']!r} cwd={cwd} nnvg " + " ".join(argv)
     else:
         warm_out = lay.base / "W" / OUTNAME
         if warm_out.exists():
